@@ -43,15 +43,35 @@ import (
 // 3 = room-1.
 var InstNames = []string{"gate-1", "chat-1", "chat-2", "room-1"}
 
-// InstOf maps a service name to its number (-1 = none).
+// FrontNames are the front-ends: gate-1 (front 0, the one every model's instance 0 is) and a
+// second front-end of the same type, gate-2 (front 1), with its own acceptor and its own
+// connection-id allocator - its connection ids coincide with gate-1's.
+var FrontNames = []string{"gate-1", "gate-2"}
+
+// allNames are all services of the node.
+var allNames = []string{"gate-1", "chat-1", "chat-2", "room-1", "gate-2"}
+
+// InstOf maps a service name to its number (gate-2 is 4; -1 = none).
 func InstOf(name string) int64 {
-	for i, n := range InstNames {
+	for i, n := range allNames {
 		if n == name {
 			return int64(i)
 		}
 	}
 	return -1
 }
+
+// FrontOf maps a front-end's name to its index (-1: not a front-end's name).
+func FrontOf(name string) int {
+	for i, n := range FrontNames {
+		if n == name {
+			return i
+		}
+	}
+	return -1
+}
+
+func viewKey(front int, id uint32) uint64 { return uint64(front)<<32 | uint64(id) }
 
 const (
 	RouteKey    = "chatid"       // session key the chat route function reads
@@ -119,6 +139,7 @@ func (c *creator) Create(name string) {
 // Node is the booted in-process node.
 type Node struct {
 	Addr     string // client TCP address of gate-1
+	Addr2    string // client TCP address of gate-2
 	mu       sync.Mutex
 	svcs     map[string]*Svc
 	activity int64
@@ -128,16 +149,16 @@ type Node struct {
 
 	logMu sync.Mutex
 	hlog  []Invocation
-	ctr   [4]int64 // issue counters, one per instance, touched only by that instance's goroutine
+	ctr   [5]int64 // issue counters, one per instance, touched only by that instance's goroutine
 
 	sessMu sync.Mutex
 	bsTab  map[int64]*backHandle
 	// what the close handlers saw (FrontSession.ToJson) when a connection was removed, by id:
 	// the ClientSessions-wide handler (SetOnCloseHandler) and the per-connection one
 	// (AddOnSessionClose, registered by the front-local session handlers)
-	closeView    map[uint32]string
-	closeView2   map[uint32]string
-	closeWatched map[uint32]bool
+	closeView    map[uint64]string // by viewKey(front, id)
+	closeView2   map[uint64]string
+	closeWatched map[uint64]bool
 }
 
 var (
@@ -190,13 +211,13 @@ func boot(scratch string) (*Node, error) {
 	if err := os.MkdirAll(cfgDir, 0o755); err != nil {
 		return nil, err
 	}
-	ports, err := freePorts(2)
+	ports, err := freePorts(3)
 	if err != nil {
 		return nil, err
 	}
 	nodePort, cliPort := ports[0], ports[1]
-	n := &Node{Addr: fmt.Sprintf("127.0.0.1:%d", cliPort), svcs: map[string]*Svc{}, clock: clockStart,
-		nextSent: SentinelLo, bsTab: map[int64]*backHandle{}, closeView: map[uint32]string{}, closeView2: map[uint32]string{}, closeWatched: map[uint32]bool{}}
+	n := &Node{Addr: fmt.Sprintf("127.0.0.1:%d", cliPort), Addr2: fmt.Sprintf("127.0.0.1:%d", ports[2]), svcs: map[string]*Svc{}, clock: clockStart,
+		nextSent: SentinelLo, bsTab: map[int64]*backHandle{}, closeView: map[uint64]string{}, closeView2: map[uint64]string{}, closeWatched: map[uint64]bool{}}
 	cluster := "---\nEnable: false\nNodeCtrl: false\nName: e2e\nETCDServer: 127.0.0.1:1\nToken: x\n"
 	nodes := fmt.Sprintf(`---
 nodes:
@@ -208,6 +229,7 @@ nodes:
       - chat-1
       - chat-2
       - room-1
+      - gate-2
 services:
   gate-1:
     Type: gate
@@ -219,7 +241,11 @@ services:
     Type: chat
   room-1:
     Type: room
-`, nodePort, n.Addr)
+  gate-2:
+    Type: gate
+    Frontend: true
+    ClientAddress: %s
+`, nodePort, n.Addr, n.Addr2)
 	if err := os.WriteFile(filepath.Join(cfgDir, "cluster.yaml"), []byte(cluster), 0o644); err != nil {
 		return nil, err
 	}
@@ -268,11 +294,11 @@ services:
 		n.mu.Lock()
 		cnt := len(n.svcs)
 		n.mu.Unlock()
-		if cnt < len(InstNames) {
+		if cnt < len(allNames) {
 			ready = false
 		}
 		if ready {
-			for _, name := range InstNames {
+			for _, name := range allNames {
 				if n.svc(name) == nil || n.svc(name).Name != name {
 					ready = false
 				}
@@ -300,39 +326,62 @@ services:
 	if err := n.Settle(); err != nil {
 		return nil, err
 	}
-	if err := n.Front().Exec(func() {
-		f := n.Front()
-		if sc, _ := f.GetComponent("sessions").(*impls.SessionsComponent); sc != nil {
-			sc.GetSessions().SetOnCloseHandler(func(_ *service.NodeService, fs *cs.FrontSession) {
-				n.sessMu.Lock()
-				n.closeView[fs.GetNetId()] = fs.ToJson()
-				n.sessMu.Unlock()
-			})
+	for fi := range FrontNames {
+		fi := fi
+		f := n.FrontN(fi)
+		if err := f.Exec(func() {
+			if sc, _ := f.GetComponent("sessions").(*impls.SessionsComponent); sc != nil {
+				sc.GetSessions().SetOnCloseHandler(func(_ *service.NodeService, fs *cs.FrontSession) {
+					n.sessMu.Lock()
+					n.closeView[viewKey(fi, fs.GetNetId())] = fs.ToJson()
+					n.sessMu.Unlock()
+				})
+			}
+		}); err != nil {
+			return nil, err
 		}
-	}); err != nil {
+	}
+	// make sure the listener behind each client address really is that front's acceptor (the port
+	// could have been taken by another process between the probe and the acceptor's Listen, which
+	// only logs); if it is not, start a second acceptor of the same front on a fresh port
+	for fi := range FrontNames {
+		if err := n.ensureAcceptor(fi); err != nil {
+			return nil, err
+		}
+	}
+	if err := n.Settle(); err != nil {
 		return nil, err
 	}
-	// make sure the listener behind Addr really is gate-1's acceptor (the port could have been
-	// taken by another process between the probe and the acceptor's Listen, which only logs);
-	// if it is not, start a second acceptor of the same front on a fresh port
+	return n, nil
+}
+
+func (n *Node) addrOf(front int) string {
+	if front == 1 {
+		return n.Addr2
+	}
+	return n.Addr
+}
+
+func (n *Node) ensureAcceptor(fi int) error {
 	for attempt := 0; ; attempt++ {
-		if cl, err := Dial(n.Addr); err == nil {
+		if cl, err := Dial(n.addrOf(fi)); err == nil {
+			cl.Front = fi
 			err = n.Sentinel(cl)
-			ok := err == nil && cl.NetId != 0
+			ok := err == nil && cl.NetId != 0 && cl.sentBy == FrontNames[fi]
 			cl.Close()
 			if ok {
-				break
+				return nil
 			}
 		}
 		if attempt >= 3 {
-			return nil, errors.New("e2e: no working client acceptor")
+			return errors.New("e2e: no working client acceptor of " + FrontNames[fi])
 		}
 		ps, err := freePorts(1)
 		if err != nil {
-			return nil, err
+			return err
 		}
 		addr := fmt.Sprintf("127.0.0.1:%d", ps[0])
-		f := n.Front()
+		f := n.FrontN(fi)
 		if err := f.Exec(func() {
 			sc, _ := f.GetComponent("sessions").(*impls.SessionsComponent)
 			if sc == nil {
@@ -342,15 +391,24 @@ services:
 			f.AddComponent(fmt.Sprintf("tcp-retry-%d", attempt), tcp)
 			tcp.Start(addr)
 		}); err != nil {
-			return nil, err
+			return err
 		}
-		n.Addr = addr
+		if fi == 1 {
+			n.Addr2 = addr
+		} else {
+			n.Addr = addr
+		}
 		time.Sleep(50 * time.Millisecond)
 	}
-	if err := n.Settle(); err != nil {
-		return nil, err
+}
+
+// DialFront connects a client to front-end fi (0 = gate-1, 1 = gate-2).
+func (n *Node) DialFront(fi int) (*Client, error) {
+	c, err := Dial(n.addrOf(fi))
+	if c != nil {
+		c.Front = fi
 	}
-	return n, nil
+	return c, err
 }
 
 func (n *Node) svc(name string) *Svc {
@@ -360,10 +418,13 @@ func (n *Node) svc(name string) *Svc {
 }
 
 // Svc returns the service object of an instance number.
-func (n *Node) Svc(inst int64) *Svc { return n.svc(InstNames[inst]) }
+func (n *Node) Svc(inst int64) *Svc { return n.svc(allNames[inst]) }
 
 // Front is gate-1.
 func (n *Node) Front() *Svc { return n.svc("gate-1") }
+
+// FrontN is front-end fi.
+func (n *Node) FrontN(fi int) *Svc { return n.svc(FrontNames[fi]) }
 
 // Post runs f inside the service's execution context (its scheduler) and waits.
 func (s *Svc) Exec(f func()) error {
@@ -399,7 +460,7 @@ func (s *Svc) mailboxBarrier() error {
 func (n *Node) Settle() error {
 	for round := 0; round < 10000; round++ {
 		a0 := atomic.LoadInt64(&n.activity)
-		for _, name := range InstNames {
+		for _, name := range allNames {
 			s := n.svc(name)
 			if err := s.mailboxBarrier(); err != nil {
 				return err
@@ -451,6 +512,7 @@ func (n *Node) Sentinel(c *Client) error {
 	}
 	if r, ok := DecodeReply(n.Proto(), ev.Data); ok && r.NetId != 0 {
 		c.NetId = r.NetId
+		c.sentBy = r.Svc
 	}
 	return nil
 }
@@ -531,7 +593,7 @@ func (n *Node) flushNotReady(c *Client) error {
 	if c.NetId == 0 {
 		return nil
 	}
-	sess, err := n.ClientSessionOf(c.NetId)
+	sess, err := n.ClientSessionOn(c.Front, c.NetId)
 	if err != nil {
 		return err
 	}
@@ -584,7 +646,7 @@ func (n *Node) Advance(cs []*Client) error {
 			c.Heartbeat()
 		}
 	}
-	for _, name := range InstNames {
+	for _, name := range allNames {
 		s := n.svc(name)
 		if err := s.Exec(func() { s.VerifCheckExpired() }); err != nil {
 			return err
@@ -594,8 +656,11 @@ func (n *Node) Advance(cs []*Client) error {
 }
 
 // HasSession reports whether the front still holds a session with this connection id.
-func (n *Node) HasSession(id uint32) (bool, error) {
-	f := n.Front()
+func (n *Node) HasSession(id uint32) (bool, error) { return n.HasSessionOn(0, id) }
+
+// HasSessionOn is HasSession for front-end fi.
+func (n *Node) HasSessionOn(fi int, id uint32) (bool, error) {
+	f := n.FrontN(fi)
 	has := false
 	err := f.Exec(func() {
 		sc, _ := f.GetComponent("sessions").(*impls.SessionsComponent)
@@ -619,21 +684,27 @@ func (n *Node) HasSession(id uint32) (bool, error) {
 
 // CloseView returns what the OnClose handlers saw when connection id was removed (ok = false:
 // not removed, or the two handlers saw different things).
-func (n *Node) CloseView(id uint32) (view string, ok bool) {
+func (n *Node) CloseView(id uint32) (view string, ok bool) { return n.CloseViewOn(0, id) }
+
+// CloseViewOn is CloseView for front-end fi.
+func (n *Node) CloseViewOn(fi int, id uint32) (view string, ok bool) {
 	n.sessMu.Lock()
 	defer n.sessMu.Unlock()
-	v, ok := n.closeView[id]
-	if v2, has := n.closeView2[id]; has && v2 != v {
+	v, ok := n.closeView[viewKey(fi, id)]
+	if v2, has := n.closeView2[viewKey(fi, id)]; has && v2 != v {
 		return "", false
 	}
 	return v, ok
 }
 
 // WaitRemoved waits until the front no longer holds a session with this id.
-func (n *Node) WaitRemoved(id uint32) error {
+func (n *Node) WaitRemoved(id uint32) error { return n.WaitRemovedOn(0, id) }
+
+// WaitRemovedOn is WaitRemoved for front-end fi.
+func (n *Node) WaitRemovedOn(fi int, id uint32) error {
 	deadline := time.Now().Add(waitTimeout)
 	for {
-		has, err := n.HasSession(id)
+		has, err := n.HasSessionOn(fi, id)
 		if err != nil {
 			return err
 		}
@@ -656,7 +727,7 @@ func (n *Node) CloseAndWait(c *Client) error {
 	}
 	deadline := time.Now().Add(waitTimeout)
 	for {
-		has, err := n.HasSession(c.NetId)
+		has, err := n.HasSessionOn(c.Front, c.NetId)
 		if err != nil {
 			return err
 		}
@@ -670,14 +741,16 @@ func (n *Node) CloseAndWait(c *Client) error {
 	}
 }
 
-// BusyFront occupies the front's service goroutine for d (real time) and returns at once.
+// BusyFront occupies the front-ends' service goroutines for d (real time) and returns at once.
 func (n *Node) BusyFront(d time.Duration) {
-	started := make(chan struct{})
-	n.Front().NodeService.Post(func() {
-		close(started)
-		time.Sleep(d)
-	})
-	<-started
+	for fi := range FrontNames {
+		started := make(chan struct{})
+		n.FrontN(fi).NodeService.Post(func() {
+			close(started)
+			time.Sleep(d)
+		})
+		<-started
+	}
 }
 
 // SendQueueLen reads len/cap of the outbound queue (ClientSession.chSend) of a connection by
@@ -695,8 +768,11 @@ func (n *Node) SendQueueLen(sess any) (l, c int, ok bool) {
 }
 
 // ClientSessionOf returns the pomelonet session object of a connection id (nil if unknown).
-func (n *Node) ClientSessionOf(id uint32) (any, error) {
-	f := n.Front()
+func (n *Node) ClientSessionOf(id uint32) (any, error) { return n.ClientSessionOn(0, id) }
+
+// ClientSessionOn is ClientSessionOf for front-end fi.
+func (n *Node) ClientSessionOn(fi int, id uint32) (any, error) {
+	f := n.FrontN(fi)
 	var out any
 	err := f.Exec(func() {
 		sc, _ := f.GetComponent("sessions").(*impls.SessionsComponent)
@@ -731,8 +807,11 @@ func (n *Node) WatchSendQueue(sess any, stop <-chan struct{}) (max, capacity int
 
 // SetNextSessionId positions the front's connection-id allocator: the next connection gets id
 // (hook ClientSessions.VerifSetNextId; the allocator wraps at 2^32 and skips 0).
-func (n *Node) SetNextSessionId(id uint32) error {
-	f := n.Front()
+func (n *Node) SetNextSessionId(id uint32) error { return n.SetNextSessionIdOn(0, id) }
+
+// SetNextSessionIdOn is SetNextSessionId for front-end fi.
+func (n *Node) SetNextSessionIdOn(fi int, id uint32) error {
+	f := n.FrontN(fi)
 	return f.Exec(func() {
 		if sc, _ := f.GetComponent("sessions").(*impls.SessionsComponent); sc != nil {
 			sc.GetSessions().VerifSetNextId(id - 1)
